@@ -373,7 +373,8 @@ package runtime
 //@   modifies m.usedResources.Cpu, m.usedResources.Millis, m.nextCpuThreshold, m.status
 //@   exits ContextTerminationError
 //@   exits_ensures old(m.status) == StatusLive && m.status == StatusKilled
-//@   exits_ensures m.usedResources.Cpu == old(m.usedResources.Cpu)
+//@   exits_ensures m.stopLevel&HardStop != 0 ==> m.usedResources.Cpu == old(m.usedResources.Cpu)
+//@   exits_ensures m.stopLevel&HardStop == 0 && spec.atLimit(spec.satAdd(old(m.usedResources.Cpu), cpuAmount), m.hardLimits.Cpu) ==> m.usedResources.Cpu == m.hardLimits.Cpu   // (C05) a context killed by its limit records the whole limit as used: charged to the parent on pop, it exhausts what the parent had set aside, so a kill inside pcall re-fires in the parent
 //@   exits_ensures (m.stopLevel&HardStop != 0) || spec.atLimit(spec.satAdd(old(m.usedResources.Cpu), cpuAmount), m.hardLimits.Cpu) || (m.trackTime && spec.atLimit(m.usedResources.Millis, m.hardLimits.Millis))
 //@   ensures m.usedResources.Cpu == spec.satAdd(old(m.usedResources.Cpu), cpuAmount)
 //@   ensures m.status == old(m.status)
@@ -387,7 +388,9 @@ package runtime
 //@   requires m != nil
 //@   modifies m.usedResources.Cpu, m.usedResources.Millis, m.nextCpuThreshold, m.status
 //@   exits ContextTerminationError
-//@   exits_ensures old(m.trackCpu) && old(m.status) == StatusLive && m.status == StatusKilled && m.usedResources.Cpu == old(m.usedResources.Cpu)
+//@   exits_ensures old(m.trackCpu) && old(m.status) == StatusLive && m.status == StatusKilled
+//@   exits_ensures m.stopLevel&HardStop != 0 ==> m.usedResources.Cpu == old(m.usedResources.Cpu)
+//@   exits_ensures m.stopLevel&HardStop == 0 && spec.atLimit(spec.satAdd(old(m.usedResources.Cpu), cpuAmount), m.hardLimits.Cpu) ==> m.usedResources.Cpu == m.hardLimits.Cpu
 //@   exits_ensures (m.stopLevel&HardStop != 0) || spec.atLimit(spec.satAdd(old(m.usedResources.Cpu), cpuAmount), m.hardLimits.Cpu) || (m.trackTime && spec.atLimit(m.usedResources.Millis, m.hardLimits.Millis))
 //@   ensures m.trackCpu ==> m.usedResources.Cpu == spec.satAdd(old(m.usedResources.Cpu), cpuAmount)
 //@   ensures !m.trackCpu ==> m.usedResources.Cpu == old(m.usedResources.Cpu) && m.usedResources.Millis == old(m.usedResources.Millis)
@@ -404,7 +407,8 @@ package runtime
 //@   modifies m.usedResources.Memory, m.status
 //@   exits ContextTerminationError
 //@   exits_ensures old(m.status) == StatusLive && m.status == StatusKilled
-//@   exits_ensures m.usedResources.Memory == old(m.usedResources.Memory)
+//@   exits_ensures m.stopLevel&HardStop != 0 ==> m.usedResources.Memory == old(m.usedResources.Memory)
+//@   exits_ensures m.stopLevel&HardStop == 0 ==> m.usedResources.Memory == m.hardLimits.Memory   // (C06) likewise for memory
 //@   exits_ensures (m.stopLevel&HardStop != 0) || spec.atLimit(spec.satAdd(old(m.usedResources.Memory), memAmount), m.hardLimits.Memory)
 //@   ensures m.usedResources.Memory == spec.satAdd(old(m.usedResources.Memory), memAmount)
 //@   ensures m.status == old(m.status)
@@ -417,7 +421,9 @@ package runtime
 //@   requires m != nil
 //@   modifies m.usedResources.Memory, m.status
 //@   exits ContextTerminationError
-//@   exits_ensures old(m.trackMem) && old(m.status) == StatusLive && m.status == StatusKilled && m.usedResources.Memory == old(m.usedResources.Memory)
+//@   exits_ensures old(m.trackMem) && old(m.status) == StatusLive && m.status == StatusKilled
+//@   exits_ensures m.stopLevel&HardStop != 0 ==> m.usedResources.Memory == old(m.usedResources.Memory)
+//@   exits_ensures m.stopLevel&HardStop == 0 ==> m.usedResources.Memory == m.hardLimits.Memory
 //@   exits_ensures (m.stopLevel&HardStop != 0) || spec.atLimit(spec.satAdd(old(m.usedResources.Memory), memAmount), m.hardLimits.Memory)
 //@   ensures m.trackMem ==> m.usedResources.Memory == spec.satAdd(old(m.usedResources.Memory), memAmount)
 //@   ensures !m.trackMem ==> m.usedResources.Memory == old(m.usedResources.Memory)
